@@ -4,7 +4,7 @@ For each: git -C /repo apply, run the quick check of the seeded property (and of
 reported it before), git checkout. Updates meta.json (checks_run, caught_by). Exit 1 if a seed that
 was reported before is no longer reported."""
 import json, os, glob, subprocess, sys
-ENV = dict(os.environ, GOFLAGS="-mod=mod", GOPROXY="off", GOSUMDB="off", GOTOOLCHAIN="local")
+ENV = dict(os.environ, GOFLAGS="-mod=mod -trimpath", GOPROXY="off", GOSUMDB="off", GOTOOLCHAIN="local")
 def sh(cmd, cwd=None):
     p = subprocess.run(cmd, shell=True, cwd=cwd, capture_output=True, text=True, env=ENV)
     return p.returncode, p.stdout + p.stderr
